@@ -6,8 +6,8 @@ tvars == <<avars, l>>
 TInit == CursorInit /\ AInit(1024)
 
 TReset == IsEv("reset")
-          /\ phase' = "play" /\ held' = <<>> /\ wire' = <<>> /\ closed' = FALSE
-          /\ open' = <<>> /\ pos' = 0 /\ cap' = Rec.cap
+          /\ phase' = "play" /\ held' = {} /\ wire' = <<>> /\ closed' = FALSE
+          /\ open' = <<>> /\ clk' = 0 /\ cap' = Rec.cap
 
 TCall == IsEv("call") /\ Call(Rec.thread, Rec.op, Rec.kind, Rec.pkt)
 TRet == IsEv("ret") /\ Ret(Rec.thread, Rec.res)
